@@ -88,6 +88,23 @@ Theorem C06_dead_code_never_creates :
 Proof. exact dead_code_never_creates. Qed.
 Print Assumptions C06_dead_code_never_creates.
 
+(* what a successful activation hands back, in every reachable state: the id of the CALLER's own mapping, whose record is
+   in the store, listens for the caller's client and address and targets the code's client and address.  (In the model
+   the result of a call is a function of its own request and the store only; together with
+   C06_at_most_one_success_all_schedules: at most one activation of a code EVER reports success, and what it reports is
+   its own mapping — a caller can never be handed another caller's mapping.) *)
+Theorem C06_returned_mapping_is_callers :
+  forall (P : params) (s : st sh lo) (sched : list nat),
+  mains (fst s) = [] ->
+  (forall t, In t (snd s) -> l_pc t = PGet \/ exists e, l_pc t = PDone (RErr e)) ->
+  (forall i j ti tj, nth_error (snd s) i = Some ti -> nth_error (snd s) j = Some tj -> l_me ti = l_me tj -> i = j) ->
+  let s' := run sh lo (tstep Current P) s sched in
+  forall t m l la ok, In t (snd s') -> l_kind t = KAct l la ok -> l_pc t = PDone (ROk m) ->
+    m = l_me t /\
+    In {| m_id := m; m_listen := l; m_laddr := la; m_target := p_tgt P; m_taddr := p_taddr P |} (mains (fst s')).
+Proof. intros P s sched H1 H2 H3. exact (returned_mapping_is_callers P s sched (conj H1 (conj H2 H3))). Qed.
+Print Assumptions C06_returned_mapping_is_callers.
+
 (* revocation against activation, every schedule (faults and expiry included): a revocation that wrote the revoked
    record and an activation never both succeed.  (RGone — RevokeConnectionCode returning nil because the code had
    already expired and vanished, nothing written — is a different result and is not constrained.) *)
